@@ -50,6 +50,9 @@ CONSTANTS CompKind,    \* "ev" | "pv" (documentation only: the kinds differ)
           Kinds,       \* message kinds the environment may send
           TickW,       \* weight of Tick in simulation
           Mode,        \* "mc" (unbounded) | "gen" | "sim" | "trace"
+          Regular,     \* TRUE: the environment avoids what triggers the named deviations (no exactly-max-age message, results
+                       \* only for a component reported usable and naming it, a success only while nothing was ever blocked):
+                       \* on such behaviours the unrepaired code must satisfy every clause strictly
           Fixes        \* repairs applied to the model (subset of AllFixes)
 
 VARIABLES now,
@@ -212,11 +215,13 @@ FxRes == IF Mode = "trace" THEN SUBSET {"override", "unblock", "unmentioned"}
 TickStep == /\ \E w \in 1..(IF Mode = "sim" THEN TickW ELSE 1) : Tick /\ Log([a |-> "tick", w |-> w])
             /\ EmitRule
 DataStep == /\ EnvOk
-            /\ \E kind \in Kinds, lt \in BOOLEAN, fx \in FxData :
+            /\ \E kind \in (IF Regular THEN Kinds \ {"edge"} ELSE Kinds), lt \in BOOLEAN, fx \in FxData :
                  Data(kind, lt, fx) /\ Log([a |-> "msg", kind |-> kind, late |-> lt, pre |-> tmr <= now])
             /\ EmitRule
 ResStep == /\ EnvOk
-           /\ \E f \in {"ok", "fail", "none"}, fx \in FxRes : Res(f, fx) /\ Log([a |-> "res", f |-> f])
+           /\ \E f \in {"ok", "fail", "none"}, fx \in FxRes :
+                /\ Regular => (st # "NW" /\ f # "none" /\ (f = "ok" => blk.until = None))
+                /\ Res(f, fx) /\ Log([a |-> "res", f |-> f])
            /\ EmitRule
 TimerStep == Timer /\ Log([a |-> "timer"]) /\ EmitRule
 LateStep == Late /\ Log([a |-> "late"]) /\ EmitRule
@@ -273,5 +278,5 @@ BackoffDoublesOrDev ==
 
 TypeOK ==
     /\ now >= 0 /\ st \in {"NW", "UN", "WK"} /\ blk.dur \in MinBlock..MaxBlock
-    /\ CompKind \in {"ev", "pv"} /\ Fixes \subseteq AllFixes
+    /\ CompKind \in {"ev", "pv"} /\ Fixes \subseteq AllFixes /\ Regular \in BOOLEAN
 =============================================================================
